@@ -9,7 +9,7 @@ import json, os, subprocess, sys, time
 ENV = dict(os.environ, GOFLAGS='-mod=mod', GOPROXY='off', GOSUMDB='off', GOTOOLCHAIN='local')
 
 def sh(cmd, **kw):
-    return subprocess.run(cmd, shell=True, capture_output=True, text=True, env=ENV, **kw)
+    return subprocess.run(cmd, shell=True, capture_output=True, text=True, errors='replace', env=ENV, **kw)
 
 def main():
     args = [a for a in sys.argv[1:] if not a.startswith('--')]
